@@ -988,6 +988,13 @@ func (env *Env) callExpr(x *ECall) Val {
 		if b.C != nil {
 			b = env.typed(b, a.Typ)
 		}
+		// nil against a composite value: the zero value of that shape
+		isNil := func(v Val) bool { return v.K == VScalar && v.Typ == types.Typ[types.UntypedNil] }
+		if isNil(b) && a.K != VScalar && a.Typ != nil {
+			b = c.zeroVal(a.Typ)
+		} else if isNil(a) && b.K != VScalar && b.Typ != nil {
+			a = c.zeroVal(b.Typ)
+		}
 		return iteVal(cnd, a, b)
 	case "len", "cap":
 		v := env.eval(x.Args[0])
